@@ -62,6 +62,19 @@ def parent_entry_of(c):
     return c.old.parent_entries[c.old.file_id][c.heads[0]]
 
 
+# ---- PackCommitBuilder._heads: the answer is computed in the per-file graph OF THE FILE ASKED ABOUT, afresh for every question
+KEY = Tup(BYTES, BYTES)
+GraphHeads = ufunc("GraphHeads", Seq(KEY), SetS(KEY))      # vcsgraph heads() of the given (file id, revision) keys
+PCB = cls("PackCommitBuilder", fields={"_file_graph": ANY})
+assumed("self._file_graph.heads", pure=True, returns=lambda c: GraphHeads(c.args[0]), raises={"Exception": None})
+target("breezy/bzr/pack_repo.py::PackCommitBuilder._heads", params=dict(file_id=BYTES, revision_ids=SetS(BYTES)), result=SetS(BYTES),
+       locals=dict(keys=Seq(KEY)), modifies=[],
+       ensures={"heads_of_exactly_this_files_versions": lambda c: exists([Seq(KEY)], lambda ks: And(
+           forall([KEY], lambda k: In(k, ks) == And(k[0] == c.old.file_id, In(k[1], c.old.revision_ids))),
+           forall([BYTES], lambda x: In(x, c.result) == exists([KEY], lambda k: And(In(k, GraphHeads(ks)), k[1] == x)))))},
+       raises={"Exception": True}, canary=lambda c: c.result == SetS(BYTES).empty(),
+       note="no state is kept between questions: the result is a function of the file id and the candidate revisions")
+
 undecided("how the candidate versions are gathered from the parent inventories (make_inventory_delta over external inventories), the per-kind "
           "content / executable comparison that follows the block, and the heads computation itself (vcsgraph, external)")
 undecided("the repository consistency check (_VersionedFileChecker) and reconcile: exercised natively by the replay scenarios only")
